@@ -39,12 +39,16 @@ type coreOp struct {
 }
 
 type coreCase struct {
-	Rate uint32   `json:"rate"`
-	Ops  []coreOp `json:"ops"`
+	Rate   uint32   `json:"rate"`
+	Total0 uint32   `json:"total0,omitempty"` // PresetTotalLost before the first op
+	Ops    []coreOp `json:"ops"`
 }
 
 func runCore(c *coreCase) {
 	s := report.NewVerifReceiverStream(0x1234, c.Rate)
+	if c.Total0 != 0 {
+		s.PresetTotalLost(c.Total0)
+	}
 	for i := range c.Ops {
 		op := &c.Ops[i]
 		switch op.K {
@@ -127,7 +131,11 @@ func (c *coreCase) toCase(buckets ...string) cq.Case {
 		buckets = append(buckets, "out-of-scope")
 	}
 
-	return cq.Case{Coq: cq.T(cq.ZU(uint64(c.Rate)), cq.L(ops)), JSON: c, Buckets: buckets, Trivial: !useful}
+	if c.Total0 != 0 {
+		buckets = append(buckets, "cumulative-near-saturation")
+	}
+
+	return cq.Case{Coq: cq.T(cq.ZU(uint64(c.Rate)), cq.ZU(uint64(c.Total0)), cq.L(ops)), JSON: c, Buckets: buckets, Trivial: !useful}
 }
 
 var rates = []uint32{8000, 48000, 90000, 1, 0xFFFFFFFF, 44100, 1000}
@@ -649,13 +657,16 @@ func main() {
 	for _, f := range o.CorpusFiles() {
 		addReplay(f, "corpus")
 	}
-	ncore := o.Scale(1400, 60000)
+	ncore := o.Scale(1400, 10000)
 	for i := 0; i < ncore; i++ {
 		c, b := genCore(r, 60)
+		if i%20 == 19 { // cumulative loss counter just below 2^24-1
+			c.Total0 = 0xFFFFFF - uint32(r.Intn(40))
+		}
 		runCore(c)
 		core.Cases = append(core.Cases, c.toCase(b...))
 	}
-	napi := o.Scale(400, 20000)
+	napi := o.Scale(400, 2000)
 	for i := 0; i < napi; i++ {
 		c, b := genAPI(r)
 		if err := runAPI(c); err != nil {
